@@ -2,13 +2,13 @@ INIT Init
 NEXT Next
 CONSTANTS
   Pos = {1, 2}
-  ReadBases = {"A", "C"}
-  Quals = {10, 20}
+  ReadBases = {"A"}
+  Quals = {10}
   MaxReads = 3
   Refs <- RefsTwo
-  Cap = 0
+  Cap = 1
   MaxNs1 = {0}
-  Variant = "design"
+  Variant = "tf_no_overflow"
 INVARIANT Inv_C15_Exists
 INVARIANT Inv_C15_Blocks
 INVARIANT Inv_C15_Lens
